@@ -36,7 +36,7 @@ ASSUMPTIONS = [
     "x86-64 ELF only",
 ]
 BOUNDS = {"quick": {"set_size": 2}, "thorough": {"set_size": 3}}
-CAP_S = {"quick": 170, "thorough": 2400}
+CAP_S = {"quick": 400, "thorough": 2400}
 
 P_ORD = [["p", 0]]
 P_CFI = [["push"], ["cfi", ".cfi_adjust_cfa_offset", [8]], ["p", 0], ["pop"], ["cfi", ".cfi_adjust_cfa_offset", [-8]]]
